@@ -87,20 +87,15 @@ def oracle_grid(lo: float, hi: float, p: float, g: np.ndarray) -> tuple[list[str
     if len(g) > 1 and not bool(np.all(np.diff(g) > 0)):
         errs.append("grid not strictly increasing")
     last = L + (len(g) - 1) * P
-    if p > TOL:
-        # ends at the last step not beyond the upper bound (tolerance of the code: 1e-7 absolute)
-        if last > H + Fraction(TOL) + eps:
-            errs.append(f"last element {float(g[-1])!r} beyond upper bound {hi!r} (+1e-7)")
-        if last + P < H - eps:
-            errs.append(f"grid stops early: last {float(g[-1])!r} + precision {p!r} still below upper bound {hi!r}")
-        m = (H - L) / P
-        if m.denominator == 1 and abs(Fraction(float(g[-1])) - H) > eps:
-            errs.append(f"range is an exact multiple of the precision but the grid ends at {float(g[-1])!r}, not at {hi!r}")
-    else:
-        if last > H + eps:
-            known.append(f"precision {p!r} <= 1e-7: grid of [{lo!r},{hi!r}] ends at {float(g[-1])!r} beyond the upper bound")
-        if last + P < H - eps:
-            errs.append(f"grid stops early: last {float(g[-1])!r}")
+    # ends at the last step not beyond the upper bound (tolerance of the code: min(1e-7, precision/2), never more than half a step)
+    tol = min(Fraction(TOL), P / 2)
+    if last > H + tol + eps:
+        errs.append(f"last element {float(g[-1])!r} beyond upper bound {hi!r} (+{float(tol)!r})")
+    if last + P < H - eps:
+        errs.append(f"grid stops early: last {float(g[-1])!r} + precision {p!r} still below upper bound {hi!r}")
+    m = (H - L) / P
+    if m.denominator == 1 and abs(Fraction(float(g[-1])) - H) > eps:
+        errs.append(f"range is an exact multiple of the precision but the grid ends at {float(g[-1])!r}, not at {hi!r}")
     return errs, known
 
 
@@ -195,7 +190,7 @@ def run(chk: Check):
                 f"{len(b)} " + " ".join(frac_s(Fraction(x)) for x in b) for b in bounds)
                 + f" {len(prec)} " + " ".join(frac_s(Fraction(x)) for x in prec))
             meta.append(("buildq", bounds, prec, False))
-    # the known-finding witness always runs
+    # the witness of the repaired small-precision defect always runs (theorem small_precision_repaired)
     reqs.append(f"ss.build {f2h(TOL)} " + req_lists([[0.0], [1e-6]], [5e-8])); meta.append(("build", [[0.0], [1e-6]], [5e-8], False))
 
     answers = lean_run(reqs)
